@@ -138,11 +138,17 @@ def flag(rs, key):
     return rs[key]
 
 
+def names_agree(got_name, want_name, rs):
+    """C03: "only the exception type has to agree".  A want that names no type (empty name, e.g. a final line made of dots)
+    agrees only with an exception line that names none either -- it must not agree with every exception."""
+    return (want_name != '' and match(got_name, want_name, rs)) or (want_name == '' and got_name == '')
+
+
 def exc_match(exc_got, want, rs):
     """C03: the final line matches, or with IGNORE_EXCEPTION_DETAIL only the type has to agree."""
     ew = exc_want(want)
     return match(exc_got, ew, rs) or (flag(rs, 'IGNORE_EXCEPTION_DETAIL')
-                                       and match(exc_name(exc_got), exc_name(ew), rs))
+                                       and names_agree(exc_name(exc_got), exc_name(ew), rs))
 
 
 # ------------------------------------------------------------- C02: got vs want
